@@ -20,13 +20,14 @@ import (
 )
 
 type ReplayJob struct {
-	Dir    string
-	Entry  string
-	Script []ScriptVal
-	Tol    float64
-	Real   bool                // produced under the R-model
-	Rename map[string][]string // repo file -> top-level functions renamed to <name>__verif_orig natively (same-package redirects)
-	Path   string              // where the script is (to be) stored
+	Dir         string
+	Entry       string
+	Script      []ScriptVal
+	Tol         float64
+	Real        bool                // produced under the R-model
+	NativeFiles []string            // *_replayonly.go harness files to include (native replacements of renamed functions)
+	Rename      map[string][]string // repo file -> top-level functions renamed to <name>__verif_orig natively (same-package redirects)
+	Path        string              // where the script is (to be) stored
 }
 
 type ReplayResult struct {
@@ -92,8 +93,12 @@ func RunReplays(repo, root string, jobs []ReplayJob, race bool, timeout time.Dur
 	os.WriteFile(randPath, randSrc, 0644)
 
 	byDir := map[string][]ReplayJob{}
+	dirOf := map[string]string{}
 	for _, j := range jobs {
-		byDir[j.Dir] = append(byDir[j.Dir], j)
+		rk, _ := json.Marshal(j.Rename)
+		key := j.Dir + "|" + string(rk) + "|" + strings.Join(j.NativeFiles, ",")
+		byDir[key] = append(byDir[key], j)
+		dirOf[key] = j.Dir
 	}
 	var dirs []string
 	for d := range byDir {
@@ -101,23 +106,28 @@ func RunReplays(repo, root string, jobs []ReplayJob, race bool, timeout time.Dur
 	}
 	sort.Strings(dirs)
 	var logs strings.Builder
-	for di, d := range dirs {
+	for di, dkey := range dirs {
+		d := dirOf[dkey]
 		ov, _, err := buildOverlay(repo, root, []string{d}, true, scratch)
 		if err != nil {
 			return nil, "", err
 		}
 		// *_replayonly.go files define native replacements for renamed functions: only with a rename request
 		withRename := false
-		for _, j := range byDir[d] {
+		for _, j := range byDir[dkey] {
 			if len(j.Rename) > 0 {
 				withRename = true
 			}
 		}
-		if !withRename {
-			for v := range ov {
-				if strings.HasSuffix(v, "_replayonly.go") {
-					delete(ov, v)
-				}
+		wanted := map[string]bool{}
+		for _, j := range byDir[dkey] {
+			for _, f := range j.NativeFiles {
+				wanted["zz_verif_"+f] = true
+			}
+		}
+		for v := range ov {
+			if strings.HasSuffix(v, "_replayonly.go") && !(withRename && (len(wanted) == 0 || wanted[filepath.Base(v)])) {
+				delete(ov, v)
 			}
 		}
 		replace := map[string]string{filepath.Join(goroot, "src/math/rand/rand.go"): randPath}
@@ -138,7 +148,7 @@ func RunReplays(repo, root string, jobs []ReplayJob, race bool, timeout time.Dur
 		}
 		// same-package redirects: rename the original function; a *_replayonly.go harness file defines the replacement
 		ri := 0
-		for _, j := range byDir[d] {
+		for _, j := range byDir[dkey] {
 			for file, fns := range j.Rename {
 				v := filepath.Join(repo, file)
 				if _, done := replace[v]; done {
@@ -150,11 +160,20 @@ func RunReplays(repo, root string, jobs []ReplayJob, race bool, timeout time.Dur
 				}
 				txt := string(src)
 				for _, fn := range fns {
-					re := regexp.MustCompile(`(?m)^func ` + regexp.QuoteMeta(fn) + `\(`)
+					var re *regexp.Regexp
+					var repl string
+					if i := strings.Index(fn, "."); i > 0 { // method: "Recv.Name"
+						recv, name := fn[:i], fn[i+1:]
+						re = regexp.MustCompile(`(?m)^func \((\w+) (\*?)` + regexp.QuoteMeta(recv) + `\) ` + regexp.QuoteMeta(name) + `\(`)
+						repl = "func (${1} ${2}" + recv + ") " + name + "__verif_orig("
+					} else {
+						re = regexp.MustCompile(`(?m)^func ` + regexp.QuoteMeta(fn) + `\(`)
+						repl = "func " + fn + "__verif_orig("
+					}
 					if !re.MatchString(txt) {
 						return nil, "", fmt.Errorf("native redirect: func %s not found in %s", fn, file)
 					}
-					txt = re.ReplaceAllString(txt, "func "+fn+"__verif_orig(")
+					txt = re.ReplaceAllString(txt, repl)
 				}
 				ri++
 				real := filepath.Join(scratch, fmt.Sprintf("d%d_rename%d.go", di, ri))
@@ -177,7 +196,7 @@ func RunReplays(repo, root string, jobs []ReplayJob, race bool, timeout time.Dur
 		os.WriteFile(ovPath, ovJSON, 0644)
 
 		var list strings.Builder
-		for _, j := range byDir[d] {
+		for _, j := range byDir[dkey] {
 			b, _ := json.MarshalIndent(map[string]interface{}{"entry": j.Entry, "script": j.Script, "tol": j.Tol, "dir": j.Dir, "real_model": j.Real}, "", " ")
 			os.MkdirAll(filepath.Dir(j.Path), 0755)
 			if err := os.WriteFile(j.Path, b, 0644); err != nil {
@@ -221,8 +240,8 @@ func RunReplays(repo, root string, jobs []ReplayJob, race bool, timeout time.Dur
 				}
 			}
 		}
-		if n < len(byDir[d]) {
-			logs.WriteString(fmt.Sprintf("replay of %s: %d of %d results; output:\n%s\n", d, n, len(byDir[d]), trunc(buf.String(), 4000)))
+		if n < len(byDir[dkey]) {
+			logs.WriteString(fmt.Sprintf("replay of %s: %d of %d results; output:\n%s\n", d, n, len(byDir[dkey]), trunc(buf.String(), 4000)))
 		}
 	}
 	return out, logs.String(), nil
